@@ -17,6 +17,7 @@ import (
 
 	"verifharness/core"
 	"verifharness/gen"
+	"verifharness/stores"
 	"verifharness/world"
 )
 
@@ -273,6 +274,21 @@ func c15Child(args []string) int {
 	spec.MaxFileSize = core.Pick(r, []int{4000, 10 << 30})
 	spec.IngestBuf = 100
 	hist.Engine = spec
+	// a thin fault wrapper around the filesystem store: it can make one Write of a chosen flush
+	// fail before its effect (the engine then aborts the writer without ever closing it)
+	flog := stores.NewLog(&stores.Clock{})
+	w.Instrument(flog)
+	failWriteAt := -1
+	flog.Plan = &stores.Plan{Decide: func(c *stores.Call) stores.Action {
+		if c.Kind == "Write" && failWriteAt >= 0 {
+			if failWriteAt == 0 {
+				failWriteAt = -1
+				return stores.Action{Fail: true}
+			}
+			failWriteAt--
+		}
+		return stores.Action{}
+	}}
 	if _, err := w.AddEngine(spec); err != nil {
 		hist.Err = err.Error()
 		return finish(0)
@@ -320,6 +336,9 @@ func c15Child(args []string) int {
 			if fail {
 				curOp = "failflush"
 				failNextClose = true
+			} else if r.Chance(0.2) {
+				curOp = "failwrite"
+				failWriteAt = r.Range(0, 5)
 			}
 			for k := 0; k < nb; k++ {
 				_, recs := makeBatch(rr, w, "normal")
@@ -354,6 +373,7 @@ func c15Child(args []string) int {
 				}
 			}
 			failNextClose = false
+			failWriteAt = -1
 			hist.Steps = append(hist.Steps, fmt.Sprintf("%s(batches=%d)", curOp, nb))
 			curOp = "idle"
 		default:
